@@ -110,6 +110,8 @@ func (m *Mutex) Unlock() {
 		vsched.Unblock(w)
 	}
 	m.waiters = nil
+	// a second point right after the release: what the caller does next is no longer protected
+	vsched.SyncPoint(fmt.Sprintf("after Mutex.Unlock %p", m))
 }
 
 // RWMutex mirrors sync.RWMutex (writer preference is not modelled). Happens-before
@@ -148,6 +150,7 @@ func (m *RWMutex) Unlock() {
 	vsched.Release(&m.wclock)
 	m.writer = false
 	m.wakeAll()
+	vsched.SyncPoint(fmt.Sprintf("after RWMutex.Unlock %p", m))
 }
 
 func (m *RWMutex) RLock() {
@@ -173,6 +176,7 @@ func (m *RWMutex) RUnlock() {
 	vsched.Release(&m.rclock)
 	m.readers--
 	m.wakeAll()
+	vsched.SyncPoint(fmt.Sprintf("after RWMutex.RUnlock %p", m))
 }
 
 func (m *RWMutex) RLocker() Locker { return (*rlocker)(m) }
